@@ -658,6 +658,16 @@ pub fn pairs(tier: Tier) -> Vec<(u16, Option<u16>)> {
                 v.push((k, s));
             }
         }
+        // every effective keep-alive from 0 to 64 s (the formula for the idle time before a PINGREQ changes shape
+        // at twice the round-trip bound) and a few large ones, configured or imposed by the broker
+        let wide: Vec<u16> = (0..=64u16).chain([65, 90, 100, 120, 127, 128, 255, 256, 600, 3600, 32767, 32768, 65534]).collect();
+        for &e in &wide {
+            for cand in [(e, None), (60, Some(e)), (0, Some(e)), (65535, Some(e))] {
+                if !v.contains(&cand) {
+                    v.push(cand);
+                }
+            }
+        }
         v
     }
 }
